@@ -4,6 +4,18 @@ answers are compared with the Lean model's."""
 
 PROPS = {
     "C17": {
+        "claim": {
+            "text": "Lean 4 theorems over every rational departure time, every chain SetExpression can build and every "
+                    "non-negative duration table: ValueAtValue is total, non-negative, first-in-first-out, equals the "
+                    "element's duration for a trip that fits inside one element, equals the default after the last "
+                    "frame / without frames; SetExpression (as repaired) only accepts intervals that keep the chain "
+                    "sorted, contiguous and alternating. The model is tied to the Go by a differential stream "
+                    "(API and JSON routes, dense grids and every frame boundary) replayed through the compiled model.",
+            "note": "Trusted: Lean kernel; axioms propext, Classical.choice, Quot.sound; the hand-written model "
+                    "NR.TimeDep (tied, not verified); float64 rounding is outside the model (tolerance 1e-9).",
+            "technique": "Lean 4 proof (induction over the element chain, ordered-field reasoning over Rat) + differential correspondence check",
+            "design_ref": "DESIGN.md §5 C17, §3.5",
+        },
         "lean_props": ["C17"],
         "streams": [{"name": "td", "tol": 1e-9}],
         "trusted": ["float64 rounding in ValueAtValue is outside the model: code and model are compared "
@@ -12,3 +24,5 @@ PROPS = {
                         "expressions are constants per (vehicle type, from, to); the theorems fix one triple"],
     },
 }
+
+NOT_APPLICABLE = {}
